@@ -918,6 +918,19 @@ def wrapper2d(P, rep, counter, rule="LAYOUT.2D"):
             state[off] = sp.expand(ev(n["c"][1]))
         want = {0: sp.expand(ux * V[0] + uy * V[1]), 1: V[2], 2: sp.Integer(0)}
         bad = [k for k in (0, 1, 2) if sp.expand(state[k] - want[k]) != 0]
+        # the three stores are unconditional inside the velocity case
+        for n in order:
+            for a in F2.ancestors(n):
+                if a.get("k") == "SwitchStmt":
+                    break
+                if a.get("k") in ("IfStmt", "ConditionalOperator"):
+                    cond_txt = norm.render(P, a["c"][0])[:80]
+                    rep.violation(rule, "2D velocity projection is applied only when %s" % cond_txt, F2.nloc(n), F2.qn, norm.render(P, n)[:120],
+                                  "for the remaining cross sections the 3D velocity component is passed through unprojected",
+                                  key=rule + "|projection-conditional", witness="a cross section for which the condition is false (e.g. pointing in -x)")
+                    bad = bad or [-1]
+                    break
+        bad = [k for k in bad if k != -1] if bad != [-1] else []
         if bad:
             rep.violation(rule, "2D velocity projection", F2.nloc(order[0]), F2.qn, "; ".join("slot %d = %s" % (k, state[k]) for k in (0, 1, 2)),
                           "expected (ux*v0 + uy*v1, v2, 0)", key=rule + "|projection",
